@@ -4,7 +4,8 @@ EXTRACTED syntactically from /repo (a construct the extractor does not understan
   * serde shape of every struct/enum reachable from a result type: field names, types, `#[serde(…)]` attributes
     (`skip_serializing_if`, `rename`, `rename_all`, `skip*`), from renamify-core/src/{output,scanner,case_model}.rs;
   * the document built by each `impl OutputFormatter for T { fn format_json }`: the `json!({…})` literal (keys, `self.f`
-    members, literals, `if … { "a" } else { "b" }`), or `serde_json::to_string(self)`;
+    members, literals, `if … { "a" } else { "b" }`, locals bound by `serde_json::to_value(&self.f).unwrap_or(Value::Null)`),
+    or `serde_json::to_string(self)`;
   * main.rs: `match cli.command` dispatch (command -> handler fn, with the literal arguments `""`/`true` bound to the
     handler's `replace`/`dry_run` parameters), the `Ok`/`Err` exit-code mapping (Ok: one unconditional literal code plus
     the code(s) under the interrupted flag; Err: its own `exit_code` chain, never conditioned on the flag), every `process::exit` before the
@@ -277,6 +278,11 @@ def json_value_shape(types, struct, val):
         if ft[0] == "option" and types.always_some(struct, m.group(1)):
             return types.resolve(ft[1])      # `Some(…)` at every construction site of the struct: never null
         return types.resolve(ft)
+    if re.fullmatch(r"\w+", val) and val in getattr(types, "json_locals", {}):
+        field = types.json_locals[val]
+        ft = types.field_type(struct, field)
+        inner = types.resolve(ft[1]) if ft[0] == "option" and types.always_some(struct, field) else types.resolve(ft)
+        return ("fallible", inner)
     if val.startswith("{"):
         vb = _rs.blank(val)
         cl = _rs.match_close(vb, 0)
@@ -304,10 +310,24 @@ def format_json_shapes(repo, types):
         body = norm(src[fop + 1:fcl])
         jm = re.compile(r"\bjson!\s*\(\s*\{").search(b, fop, fcl)
         if jm:
-            if not re.match(r"serde_json::to_string\s*\(\s*&\s*json!", body):
-                raise ParseError(f"{struct}::format_json: json! literal not passed directly to serde_json::to_string")
+            # optional prelude: `let x = serde_json::to_value(&self.f).unwrap_or(serde_json::Value::Null);` (a member whose
+            # serialisation can fail is rendered as null instead of making json! panic)
+            locals_ = {}
+            rest = body
+            while True:
+                lm = re.match(r"let\s+(\w+)\s*=\s*serde_json::to_value\s*\(\s*&\s*self\.(\w+)\s*\)\s*\.unwrap_or\s*\(\s*"
+                              r"(?:serde_json::)?Value::Null\s*\)\s*;\s*", rest)
+                if not lm:
+                    break
+                locals_[lm.group(1)] = lm.group(2)
+                rest = rest[lm.end():]
+            if not re.match(r"serde_json::to_string\s*\(\s*&\s*json!", rest):
+                raise ParseError(f"{struct}::format_json: json! literal not passed directly to serde_json::to_string "
+                                 f"(after {len(locals_)} recognised `let … = to_value(&self.…).unwrap_or(Null)` bindings): {rest[:60]!r}")
             oop = jm.end() - 1
+            types.json_locals = locals_
             res[struct] = (json_macro_shape(types, struct, src, b, oop, _rs.match_close(b, oop)), "json!")
+            types.json_locals = {}
         elif re.match(r"serde_json::to_string\s*\(\s*&?\s*self\s*\)", body):
             types.shape_of(struct)
             res[struct] = (("ref", struct), "serde")
@@ -689,7 +709,7 @@ def lean_shape(t):
         return "." + k
     if k == "lit":
         return f"(.lit {nm(t[1])})"
-    if k in ("arr", "map"):
+    if k in ("arr", "map", "fallible"):
         return f"(.{k} {lean_shape(t[1])})"
     if k in ("tuple", "oneOf"):
         return f"(.{k} [" + ", ".join(lean_shape(x) for x in t[1]) + "])"
